@@ -157,25 +157,8 @@ theorem withUnitPrice_roundtrip (r : Decimal) (up : Bool) (hv : r.value < 2 ^ 32
 digit less would leave at least `u128::MAX`. -/
 theorem findDivisor_spec (num : Nat) (h : num < 2 ^ 192) :
     findDivisorDecimals num ≤ 20 ∧ num / 10 ^ findDivisorDecimals num < 2 ^ 128 ∧
-    (findDivisorDecimals num ≠ 0 → 2 ^ 128 - 1 ≤ num / 10 ^ (findDivisorDecimals num - 1)) := by
-  have hle : findDivisorDecimals num ≤ 20 := countBelow_le num powerBounds
-  refine ⟨hle, ?_, ?_⟩
-  · rw [Nat.div_lt_iff_lt_mul (pow_pos10 _)]
-    by_cases h20 : findDivisorDecimals num = 20
-    · rw [h20]
-      have : (2:Nat) ^ 192 ≤ 2 ^ 128 * 10 ^ 20 := by decide
-      omega
-    · have hlt : findDivisorDecimals num < 20 := by omega
-      have := countBelow_stop num powerBounds _ (powerBounds_get hlt)
-      have hp := pow_pos10 (findDivisorDecimals num)
-      calc num ≤ 10 ^ findDivisorDecimals num * (2 ^ 128 - 1) := this
-        _ < 10 ^ findDivisorDecimals num * 2 ^ 128 := Nat.mul_lt_mul_of_pos_left (by decide) hp
-        _ = 2 ^ 128 * 10 ^ findDivisorDecimals num := Nat.mul_comm _ _
-  · intro hne
-    have hj : findDivisorDecimals num - 1 < findDivisorDecimals num := by omega
-    have := countBelow_below num powerBounds _ _ hj (powerBounds_get (by omega))
-    rw [Nat.le_div_iff_mul_le (pow_pos10 _), Nat.mul_comm]
-    omega
+    (findDivisorDecimals num ≠ 0 → 2 ^ 128 - 1 ≤ num / 10 ^ (findDivisorDecimals num - 1)) :=
+  findDivisor_spec' num h
 
 /-- `convert_to_u128_storage`: never panics; `None` exactly when more digits would have to be
 dropped than there are decimals; otherwise the floor quotient with the decimals reduced. -/
